@@ -114,7 +114,7 @@ JOE_NOTE = "Scenarios run inside testing/synctest bubbles (virtual time, exact d
 chk("C03",
     level="exploration",
     technique="history monitor over real Joe executions in synctest bubbles with yield-point schedule perturbation: per-subscriber Send/Flush logs checked against the serialisation order witnessed at the Replayer boundary (exactly-once, order, topic filter, completeness before cancel, real-time consistency, flush-before-idle); race detector on",
-    level_text="Seeded scenarios (1-5 subscribers with 1-3 topics incl. DefaultTopic, 1-4 concurrent publishers, cancellations, late subscriptions, optional mid-storm Shutdown, slow subscribers) are each executed under ~12 schedules (quick) / ~25 (thorough). A recording replayer gives Joe's serialisation order of publishes and registrations as a boundary witness; the monitor requires every subscriber's Send sequence to be exactly the matching suffix of that order cut at its removal point, with the cut bounded by logical-clock intervals, no duplicates, nothing for disjoint topics, the serialisation consistent with real time, Publish return values, and a Flush after the last successful Send at every quiescent point. Without a replayer a witness-free consistency oracle is used. Shutdown contexts that are done already or time out mid-round; topic lists with a repeated topic; a 24-topic universe.",
+    level_text="Seeded scenarios (1-5 subscribers with 1-3 topics incl. DefaultTopic, 1-4 concurrent publishers, cancellations, late subscriptions, optional mid-storm Shutdown, slow subscribers) are each executed under ~12 schedules (quick) / ~25 (thorough). A recording replayer gives Joe's serialisation order of publishes and registrations as a boundary witness; the monitor requires every subscriber's Send sequence to be exactly the matching suffix of that order cut at its removal point, with the cut bounded by logical-clock intervals, no duplicates, nothing for disjoint topics, the serialisation consistent with real time, Publish return values, and a Flush after the last successful Send at every quiescent point - also for what a replay sent to a resuming subscriber (a block of its own with real replayers and presented IDs). Without a replayer a witness-free consistency oracle is used. Shutdown contexts that are done already or time out mid-round; topic lists with a repeated topic; a 24-topic universe.",
     level_note=JOE_NOTE,
     rule="cases = seeded scenario programs x hook schedules (none, random delay policies, targeted window placements, n-th-invocation delays); non-trivial = at least one subscriber and two publishes; distinct = distinct (scenario, observed yield-point sequence) pair, so the distinct count measures distinct interleavings seen",
     assumptions=["subscribers' Send/Flush return (finite virtual latency)", "select choice among ready cases is not controlled; coverage of it comes from repetition"],
@@ -188,13 +188,13 @@ chk("C10",
 chk("C11",
     level="fault_enumeration",
     technique="fault enumeration on the response body and context: for 30 base streams, a clean EOF, a read error and a cancellation are injected after every byte offset (whole and byte-at-a-time delivery, MaxRetries -1/1/3); Connect's return value and attempt count are compared with a model of the script; plus seeded mixed scripts and the same ending checks on sse.Read",
-    level_text="Every prefix of every base stream is served as a response body that ends cleanly, fails with a distinguishable read error, or cancels the request context at that offset; the monitor requires: never nil; ctx.Err() exactly when the context was cancelled (also in mid-line); *ConnectionError wrapping io.EOF / ErrUnexpectedEOF (only for a clean mid-line end) / the read error itself; validator or body-reset errors end Connect at once; attempt counts equal the model. Random scripts add validator verdicts, transport errors, cancellation inside RoundTrip, in the backoff wait and before Connect. A further family drives one Connection through up to four Connect calls: every call returns a *ConnectionError for its own last attempt and makes exactly the attempts its retry limit prescribes.",
+    level_text="Every prefix of every base stream is served as a response body that ends cleanly, fails with a distinguishable read error, or cancels the request context at that offset; the monitor requires: never nil; ctx.Err() exactly when the context was cancelled (also in mid-line); *ConnectionError wrapping io.EOF / ErrUnexpectedEOF (only for a clean mid-line end) / the read error itself; validator or body-reset errors end Connect at once; attempt counts equal the model. Random scripts add validator verdicts, transport errors, cancellation inside RoundTrip, in the backoff wait and before Connect. A further family drives one Connection through up to four Connect calls: every call returns a *ConnectionError for its own last attempt and makes exactly the attempts its retry limit prescribes. Another block ends the request context inside an event callback (cancel, cancel with cause, a virtual deadline that passes there) under every retry limit including none - the body then answers every Read with the context's error and Connect must return ctx.Err() - and ends streams with read errors that wrap context.DeadlineExceeded / context.Canceled while the request's own context is alive (lost connections like any other).",
     level_note=CLIENT_NOTE,
     rule="cases = (base stream, prefix length, ending kind) x {whole, bytewise} x MaxRetries {-1,1,3} (exhaustive over the listed bases) + seeded scripts + sse.Read over failing readers; non-trivial = at least two attempts (Connect) or non-empty prefix (Read); distinct = distinct script",
     assumptions=["when a script makes two reasons true at once both results are accepted"],
     nbatch={"quick": 16, "thorough": 16},
     timeout_s={"quick": 600, "thorough": 3600},
-    floors={"quick": {"connect_executions": 10000, "attempts_observed": 20000, "reconnect_by_hand_scenarios": 1000}},
+    floors={"quick": {"connect_executions": 10000, "attempts_observed": 20000, "reconnect_by_hand_scenarios": 1000, "context_ended_in_callback": 500, "read_errors_wrapping_a_context_error": 1000}},
     )
 
 chk("C12",
@@ -248,20 +248,20 @@ chk("C19",
 chk("C18",
     level="exploration",
     technique="reachability monitor: weak.Pointer probes on every message handed to the real replayers, forced runtime.GC() x2 at model-determined points, compared with the model's set of messages that may still be buffered; reflection probe of ring slots outside the live range; live messages serve as sensitivity control",
-    level_text="Seeded Put/Replay/GC/clock histories on FiniteReplayer (capacities 2-16) and ValidReplayer (TTL 10/100/1000 ns, GCInterval 0, ttl/4, ttl/2, ttl, 3ttl, 1 ns; bursts that grow the ring, advances that expire it, collections that shrink it), both ID modes. The harness keeps only weak pointers and tokens. Finite: after Puts, every message older than the last N must be unreachable. Valid: deadness is asserted only where a collection is certain under the conservative reading (explicit GC, or a Put at least GCInterval after the last certain collection): every message with putTime+TTL <= now must be unreachable. The messages that must still be buffered are required to be alive (probe sensitivity). Histories retune the public GCInterval field; large histories keep 4 097-9 000 messages alive and expire a part of them.",
+    level_text="Seeded Put/Replay/GC/clock histories on FiniteReplayer (capacities 2-16) and ValidReplayer (TTL 10/100/1000 ns, GCInterval 0, ttl/4, ttl/2, ttl, 3ttl, 1 ns; bursts that grow the ring, advances that expire it, collections that shrink it), both ID modes. The harness keeps only weak pointers and tokens. Finite: after Puts, every message older than the last N must be unreachable. Valid: deadness is asserted only where a collection is certain under the conservative reading (explicit GC, or a Put at least GCInterval after the last certain collection): every message with putTime+TTL <= now must be unreachable. The messages that must still be buffered are required to be alive (probe sensitivity). Histories retune the public GCInterval field; large histories keep 4 097-9 000 messages alive and expire a part of them. A further block interleaves rejected Puts (no topics, preset ID in automatic mode, no ID in manual mode): whether a rejected Put collects is open, so the model keeps the set of instants the implementation may count the interval from (a rejected Put that was due advances it only if every expired message was observed unreachable afterwards) and demands a collection of an accepted Put only when it is due from every instant of the set.",
     level_note="Relies on Go's precise garbage collector and on messages being allocated in a non-inlined helper frame; says nothing about memory held outside *Message (e.g. topic slices).",
     rule="cases = seeded histories per replayer kind; non-trivial = more puts than the capacity (Finite) or more than 4 puts (Valid); distinct = distinct (configuration, op-string)",
     assumptions=["runtime.GC() twice collects every unreachable message (precise GC)", "clock non-decreasing"],
     nbatch={"quick": 16, "thorough": 16},
     timeout_s={"quick": 600, "thorough": 3600},
-    floors={"quick": {"gc_probes": 15000, "dead_confirmed": 50000, "live_controls_ok": 30000, "large_histories": 2}},
+    floors={"quick": {"gc_probes": 15000, "dead_confirmed": 50000, "live_controls_ok": 30000, "large_histories": 2, "rejected_puts": 2000, "put_triggered_after_rejected": 500}},
     gomaxprocs=[2],
     )
 
 chk("C20",
     level="exploration",
     technique="counting-reader monitor: a byte-counting io.Reader (incl. endless readers with a hard cap) feeds real Read/Connection under every MaxEventSize / Connection.Buffer setting; delivered events, the end condition and the number of bytes pulled past the last completed event are compared with token sizes computed from the text and with the reference interpreter; race detector/checkptr on",
-    level_text="Streams are assembled from blocks whose token size (preceding blank lines + block + blank line) sits at 1, 2, 3, around limit-5..limit+4, limit/2, 2*limit, 4095..4097, 8191/8193, 32767/32769, 65535..65537, plus runs of more than `limit` bytes of tiny keep-alive blocks, with and without an unterminated tail, under whole / 1-byte / 4096 / 4097 / random chunkings, for 9 ReadConfig and 8 Connection.Buffer settings (nil and non-nil buffers, cap above and below max). Endless streams (one endless line, blank lines, comment lines, data lines, CR runs) follow every prefix. The monitor requires: all tokens <= limit-3 => delivered completely and intact with the reference's end condition; a token >= limit+3 => a non-nil error, exactly the events that complete before it, and at most `limit` bytes pulled past the end of the last completed token; endless streams are stopped by an error before the reader's hard cap (4*limit). Tokens within 3 bytes of the limit are recorded, not judged.",
+    level_text="Streams are assembled from blocks whose token size (preceding blank lines + block + blank line) sits at 1, 2, 3, around limit-5..limit+4, limit/2, 2*limit, 4095..4097, 8191/8193, 32767/32769, 65535..65537, plus runs of more than `limit` bytes of tiny keep-alive blocks, with and without an unterminated tail, under whole / 1-byte / 4096 / 4097 / random chunkings, for 9 ReadConfig and 8 Connection.Buffer settings (nil and non-nil buffers, cap above and below max; a second Buffer call, a limit lowered after an earlier Connect, and four settings in which the stream arrives on the connection's first reconnection). Endless streams (one endless line, blank lines, comment lines, data lines, CR runs) follow every prefix. The monitor requires: all tokens <= limit-3 => delivered completely and intact with the reference's end condition; a token >= limit+3 => a non-nil error, exactly the events that complete before it, and at most `limit` bytes pulled past the end of the last completed token; endless streams are stopped by an error before the reader's hard cap (4*limit). Tokens within 3 bytes of the limit are recorded, not judged.",
     level_note="limit = MaxEventSize (64 KiB default) for Read and max(maxSize, cap(buf)) for Connection.Buffer (bufio.Scanner's documented rule). Byte-at-a-time chunking is combined only with limits <= 4096 because the split function rescans a token from its start on every read.",
     rule="cases = seeded (configuration, block sizes, chunking) triples + the exhaustive product configuration x endless unit x prefix; non-trivial = every case (each is judged in one of the classes below/oversized/endless or counted as boundary); distinct = distinct (configuration, chunking, stream shape)",
     assumptions=["reference interpreter correct", "bufio.Scanner semantics as documented"],
